@@ -31,6 +31,11 @@ pub fn run() {
                 let cs = CharSpan::from(&text, Span::new(loc.clone(), i..i));
                 writeln!(out, "{}", cs.start).unwrap();
             }
+            ["K", s, e] => {
+                // the character span the CLI and the playground attach to a diagnostic
+                let cs = CharSpan::from(&text, Span::new(loc.clone(), s.parse().unwrap()..e.parse().unwrap()));
+                writeln!(out, "{} {}", cs.start, cs.end).unwrap();
+            }
             ["R", s, e] => {
                 let r = utf8_range_to_position(&text, s.parse().unwrap()..e.parse().unwrap());
                 writeln!(
